@@ -51,8 +51,41 @@ def mk_pred(pred):
     return lambda *x: sum((xi - ci) ** 2 for ci, xi in zip(c, x)) < r2
 
 
+LIVE = ['live', 'frozenset', 'keys']
+
+
+def state_sig(h):
+    return [[tl(h.hmesh.active[l]), tl(h.hmesh.deactivated[l]), tl(h.actfun[l]), tl(h.deactfun[l])]
+            for l in range(h.numlevels)]
+
+
 def apply_op(hs, op):
-    """Returns (status, returned marks or None)."""
+    """Returns (status, returned marks or None).  For the aliasing container kinds (whole-level marks only:
+    'live' = the very set object returned by hs.active_cells(lv), 'frozenset' / 'keys' = other iterables) the same
+    call is also made on a copy of the space with plain set copies of the marks; the comparison of the two
+    resulting states is left in hs._c04_alias for observe()."""
+    hs._c04_alias = None
+    if op['kind'] == 'refine' and op['container'] in LIVE:
+        twin = hs.copy()
+        twin._c04_alias = None
+        st2, ret2 = apply_op(twin, dict(op, container='set'))
+        marked = {}
+        for lv, cells in op['marks']:
+            lv = int(lv)
+            cs = set(tuple(c) for c in cells)
+            if lv >= hs.numlevels or cs != set(hs.hmesh.active[lv]):
+                raise RuntimeError('harness error: aliasing marks must be all active cells of a level')
+            live = hs.active_cells(lv)
+            marked[lv] = live if op['container'] == 'live' else (
+                frozenset(live) if op['container'] == 'frozenset' else dict.fromkeys(sorted(live)).keys())
+        try:
+            ret = hs.refine(marked, truncate=True) if op.get('trunc') else hs.refine(marked)
+            status, ret = 'Ok', {int(lv): tl(set(tuple(c) for c in cells)) for lv, cells in ret.items() if len(cells)}
+        except Exception as e:  # noqa
+            status, ret = errclass(e) + ': ' + str(e)[:120], None
+        same = bool(status == st2 and ret == ret2 and state_sig(hs) == state_sig(twin))
+        hs._c04_alias = {'same': same, 'twin_status': st2, 'twin_levels': None if same else state_sig(twin)}
+        return status, ret
     try:
         if op['kind'] == 'refine':
             conv = {'set': lambda l: set(tuple(c) for c in l), 'list': lambda l: [tuple(c) for c in l],
@@ -200,6 +233,9 @@ def support_obs(hs, qrng):
 
 def observe(hs, status, ret, prevs, full, qrng, light=False, bdq=False):
     o = {'status': status, 'L': int(hs.numlevels)}
+    if getattr(hs, '_c04_alias', None) is not None:
+        o['alias'] = hs._c04_alias
+        hs._c04_alias = None
     L = hs.numlevels
     o['levels'] = [[tl(hs.hmesh.active[l]), tl(hs.hmesh.deactivated[l]), tl(hs.actfun[l]), tl(hs.deactfun[l])]
                    for l in range(L)]
@@ -292,7 +328,15 @@ def run_history(cfg, ops, full, seed=0, observe_all=True):
     qrng = random.Random(seed)
     states = [hs.copy()]
     obs = []
+    ops = [dict(op) for op in ops]
     for i, op in enumerate(ops):
+        if op['kind'] == 'refine' and op['container'] in LIVE:
+            # aliasing marks are whole levels: the listed levels (those that exist and have active cells) with
+            # all their currently active cells; the op recorded in the node says what was actually marked
+            lvs = [int(lv) for lv, _ in op['marks'] if int(lv) < hs.numlevels and hs.hmesh.active[int(lv)]]
+            op['marks'] = [[lv, tl(hs.hmesh.active[lv])] for lv in sorted(set(lvs))]
+            if not op['marks']:
+                op['container'] = 'set'
         status, ret = apply_op(hs, op)
         if observe_all or i == len(ops) - 1:
             prevs = [states[-1]] + ([states[0]] if len(states) > 1 else [])
@@ -337,6 +381,8 @@ def run_tree(cfg, depth, max_nodes, seed, full, light=False, root_masks=None):
             cells = [act[i] for i in range(n) if (mask >> i) & 1]
             counter[0] += 1
             op = {'kind': 'refine', 'marks': marks_of(cells), 'container': CONTAINERS[counter[0] % 3], 'trunc': False}
+            if all(set(tuple(c) for c in cs) == set(hs.hmesh.active[lv]) for lv, cs in op['marks']):
+                op['container'] = LIVE[counter[0] % 3] if counter[0] % 4 else 'live'     # whole levels: marks alias internal state
             h2 = hs.copy()
             status, ret = apply_op(h2, op)
             qrng = random.Random(counter[0])
@@ -392,6 +438,9 @@ def gen_op(rng, hs, cfg, cap):
         cells += [(l, c) for c in sel]
     trunc = cfg['disparity'] is not None and rng.random() < 0.12
     op = {'kind': 'refine', 'marks': marks_of(cells), 'container': rng.choice(CONTAINERS), 'trunc': trunc}
+    if all(set(tuple(c) for c in cs) == set(hs.hmesh.active[lv]) for lv, cs in op['marks']) and rng.random() < 0.7:
+        op['container'] = rng.choice(LIVE + ['live'])      # whole levels: the live set object / other iterables
+        return op
     if rng.random() < 0.1 and op['container'] != 'set':
         for m in op['marks']:
             m[1] = m[1] + [m[1][0]]          # a repeated cell in a list/tuple
